@@ -15,6 +15,7 @@
 (*                                unchecked change                         *)
 (*    removeval (map.remove)      one write lock: find the entry and       *)
 (*                                remove it                                *)
+(*    sort, fill                  one write lock: rewrite the contents     *)
 (*    extend(c, d)                read lock on d + copy, release, write    *)
 (*                                lock on c + append                       *)
 (*    swap(c, d)                  write lock on c, then write lock on d    *)
@@ -38,6 +39,7 @@ EXTENDS SharedOps, Json, IOUtils
 (***************************************************************************)
 TwoStep == IOEnv.TWOSTEP = "1"       \* follow list.insert / list.remove as they were before the repair
 TwoStepFind == IOEnv.TWOSTEP = "2"   \* remove-by-value looks the entry up and removes it under two separate locks
+TwoStepRewrite == IOEnv.TWOSTEP = "3" \* sort / fill prepare the new contents under the read lock and store them under the write lock
 NThreads == atoi(IOEnv.THREADS)
 OpsPer == atoi(IOEnv.OPS)
 Family == IOEnv.FAMILY               \* "single": operations on one container;  "pair": extend and swap on two containers
@@ -51,7 +53,8 @@ OpSet(t) ==
     IF Family = "pair" THEN {O("extend", 1, 2, 0, 0), O("extend", 2, 1, 0, 0), O("swap", 1, 2, 0, 0), O("swap", 2, 1, 0, 0),
                              O("push", 1, 0, 0, 100 * t)}
     ELSE {O("push", 1, 0, 0, 100 * t), O("pop", 1, 0, 0, 0), O("clear", 1, 0, 0, 0), O("get", 1, 0, 1, 0), O("size", 1, 0, 0, 0),
-          O("insert", 1, 0, 2, 100 * t + 1), O("remove", 1, 0, 1, 0), O("removeval", 1, 0, 0, 10 * t)} \cup
+          O("insert", 1, 0, 2, 100 * t + 1), O("remove", 1, 0, 1, 0), O("removeval", 1, 0, 0, 10 * t),
+          O("sort", 1, 0, 0, 0), O("fill", 1, 0, 0, 7 * t)} \cup
          (IF IOEnv.FULLOPS = "1" THEN {O("insert", 1, 0, 0, 100 * t + 2), O("remove", 1, 0, 0, 0)} ELSE {})
 
 \* micro-programs: [a |-> "acq", c, m] / [a |-> "rel", c] / [a |-> "do", f]
@@ -69,6 +72,11 @@ Program(op) ==
             \* TwoStep: look the entry up under the read lock, remove "the entry at that position" under the write lock
             \* (the shape of a seeded change to KMap::remove; the code takes one write lock)
             IF TwoStepFind THEN <<Acq(op.c, "r"), Do("find"), Rel(op.c), Acq(op.c, "w"), Do("remove_found"), Rel(op.c)>>
+            ELSE <<Acq(op.c, "w"), Do("atomic"), Rel(op.c)>>
+      [] op.k \in {"sort", "fill"} ->
+            \* one write lock (list.fill; list.sort of plain values, as repaired).  TwoStepRewrite: the shape of list.sort
+            \* between the two repairs and of a seeded change to list.fill
+            IF TwoStepRewrite THEN <<Acq(op.c, "r"), Do("prepare"), Rel(op.c), Acq(op.c, "w"), Do("store"), Rel(op.c)>>
             ELSE <<Acq(op.c, "w"), Do("atomic"), Rel(op.c)>>
       [] op.k = "extend" -> <<Acq(op.d, "r"), Do("copy"), Rel(op.d), Acq(op.c, "w"), Do("append"), Rel(op.c)>>
       [] op.k = "swap" -> <<Acq(op.c, "w"), Acq(op.d, "w"), Do("atomic"), Rel(op.d), Rel(op.c)>>
@@ -147,6 +155,10 @@ Step(t) ==
                 (IF tmp[t] = 0 \/ tmp[t] > Len(xs) THEN obs' = [obs EXCEPT ![t] = Append(@, RN)] /\ UNCHANGED <<mem, tmp, panic>>
                  ELSE /\ mem' = [mem EXCEPT ![op.c] = RemoveAt(xs, tmp[t] - 1)]
                       /\ obs' = [obs EXCEPT ![t] = Append(@, RI(xs[tmp[t]]))] /\ UNCHANGED <<tmp, panic>>)
+         [] f = "prepare" -> /\ tmp' = [tmp EXCEPT ![t] = Apply(mem, op).mem[op.c]]
+                             /\ UNCHANGED <<mem, obs, panic>>
+         [] f = "store" -> /\ mem' = [mem EXCEPT ![op.c] = tmp[t]]
+                           /\ obs' = [obs EXCEPT ![t] = Append(@, RN)] /\ UNCHANGED <<tmp, panic>>
          [] f = "copy" -> tmp' = [tmp EXCEPT ![t] = mem[op.d]] /\ UNCHANGED <<mem, obs, panic>>
          [] f = "append" -> /\ mem' = [mem EXCEPT ![op.c] = @ \o tmp[t]]
                             /\ obs' = [obs EXCEPT ![t] = Append(@, RN)] /\ UNCHANGED <<tmp, panic>>
